@@ -31,6 +31,40 @@ RelConforms(e) ==
     /\ RelOk(e.fam, e.a, e.b, e.r)
     /\ e.a_after = e.a /\ e.b_after = e.b
 
+(* ---- resolution with one segment of n times "a" (C06):                                      *)
+(* ----   own:     t:/x/../<big>/./z  against s://h/p/q   gives  t:/<big>/z                    *)
+(* ----   merge:   ../<big>/./z       against s://h/p/q   gives  s://h/<big>/z                 *)
+(* ----   basedir: ./z                against s://h/<big>/q  gives  s://h/<big>/z              *)
+(* ---- (MC_Unit checks the three equations with ResolveStrict for a short <big>)              *)
+BigResolveConforms(e) ==
+    LET pre == IF e.case = "own" THEN <<116, 58, 47>> ELSE <<115, 58, 47, 47, 104, 47>>
+        as(k) == [i \in 1..k |-> 97]
+    IN  /\ e.panic = FALSE
+        /\ e.len = Len(pre) + e.n + 2
+        /\ e.count_a = e.n
+        /\ e.head = pre \o as(8 - Len(pre))
+        /\ e.tail = as(6) \o <<47, 122>>
+
+(* ---- length sweep beyond what TLC takes apart (C02, C03, C20): the text is                 *)
+(* ----   scheme "://" userinfo "@" host ":" port "/" seg1 "/" seg2 "?" query "#" fragment    *)
+(* ---- with lengths 1 1 1 1 1 3 1 1 except that component number e.kind (0..7) has length    *)
+(* ---- e.l; every accessor must return exactly its range <<offset, length>> of the text      *)
+SweepLen(e, k, d) == IF e.kind = k THEN e.l ELSE d
+SweepBigConforms(e) ==
+    LET ls == SweepLen(e, 0, 1)  lu == SweepLen(e, 1, 1)  lh == SweepLen(e, 2, 1)  lp == SweepLen(e, 3, 1)
+        l1 == SweepLen(e, 4, 1)  l2 == SweepLen(e, 5, 3)  lq == SweepLen(e, 6, 1)  lf == SweepLen(e, 7, 1)
+        ao == ls + 3                      \* authority offset
+        al == lu + 1 + lh + 1 + lp
+        po == ao + al
+        pl == 1 + l1 + 1 + l2
+        qo == po + pl + 1
+        fo == qo + lq + 1
+    IN  /\ e.panic = FALSE /\ e.ok
+        /\ e.r.scheme = <<0, ls>> /\ e.r.authority = <<ao, al>> /\ e.r.path = <<po, pl>>
+        /\ e.r.query = <<qo, lq>> /\ e.r.fragment = <<fo, lf>>
+        /\ e.r.userinfo = <<ao, lu>> /\ e.r.host = <<ao + lu + 1, lh>> /\ e.r.port = <<ao + lu + 1 + lh + 1, lp>>
+        /\ e.r.last = <<po + 1 + l1 + 1, l2>>
+
 (* the last segment of "data:text/plain," followed by n copies of "%C3%A9" is "plain," and the *)
 (* escapes: 2n + 6 octets, n + 6 characters (C19)                                              *)
 BigPctConforms(e) ==
@@ -110,6 +144,8 @@ Conforms(e) ==
       [] e.ev = "big_path" -> BigPathConforms(e)
       [] e.ev = "big_ref"  -> BigRefConforms(e)
       [] e.ev = "big_pct"  -> BigPctConforms(e)
+      [] e.ev = "big_resolve" -> BigResolveConforms(e)
+      [] e.ev = "sweep_big" -> SweepBigConforms(e)
       [] e.ev = "parse"  -> ParseConforms(e)
       [] e.ev = "parse_bytes" -> ParseBytesConforms(e)
       [] e.ev = "auth"   -> AuthConforms(e)
